@@ -18,9 +18,8 @@ abbrev Name := Nat
 
 /-- `itertools.zip_longest(query_names, names(entry))` (fill value `None`). -/
 def zipLongest : List α → List β → List (Option α × Option β)
-  | [], [] => []
+  | [], bs => bs.map (fun b => (none, some b))
   | a :: as, [] => (some a, none) :: zipLongest as []
-  | [], b :: bs => (none, some b) :: zipLongest [] bs
   | a :: as, b :: bs => (some a, some b) :: zipLongest as bs
 
 /-- the local dict `source` (`supply ↦ index`, the key may be `None`): newest binding first, so that
@@ -103,7 +102,7 @@ def transposeN (n : Nat) (xs : List (List α)) : List (List α) :=
 structure Mat (α : Type) where
   major : List (List α)
   minor : Nat
-  deriving Repr, BEq
+  deriving Repr, DecidableEq
 
 namespace Mat
 variable {α : Type}
@@ -132,7 +131,7 @@ end Mat
 inductive Tab (α : Type) where
   | dense (rows : Mat α)   -- `layout.Dense`: `rows.major` = rows
   | frame (cols : Mat α)   -- `layout.Frame`: `cols.major` = columns
-  deriving Repr, BEq
+  deriving Repr, DecidableEq
 
 namespace Tab
 variable {α : Type}
@@ -229,7 +228,7 @@ inductive Outcome (α : Type) where
   | missing                 -- forml.MissingError('Augmentation not supported …')
   | indexError              -- cannot happen (theorem), kept because `take_columns` can raise
   | data (t : Tab α)
-  deriving Repr, BEq
+  deriving Repr, DecidableEq
 
 /-- the entry schema as `_cast` sees it.
 * `legacy = true` — the code as released: `self._cast(statement.schema, entry.schema, data)`, the
